@@ -1177,6 +1177,19 @@ def daemon_dispatch_phase(ctx):
         for ilen in (0, 11):
             b = rig.hdr(inner, 0, ilen)
             items.append(("nested/inner%d" % inner, rig.hdr(1, 0, len(b)) + b))
+    # well-formed RESPONSE-typed messages whose error string (a field the daemon unpacks into the message object and then
+    # reports in its log) is chosen by the peer: it is data, whatever characters it holds
+    import struct as _st
+    fmt_strings = [b"100%% legit %d", b"%x.%x.%x.%x.%lx.%lx.%p", b"%s%s%s%s%s%s%s%s%s%s%s%s%s%s%s%s%s%s%s%s%s%s%s%s", b"%n%n%n%n", b"%999999d", b"%*d %.*s"]
+    for t in (3, 5):
+        for es in fmt_strings:
+            es0 = es + b"\0"
+            rb_ = _st.pack(">BB", 1, len(es0)) + es0
+            if t == 3:
+                rb_ += _st.pack(">I", 0)
+            else:
+                rb_ += _st.pack(">BBBB", 0, 0, 0, 0) + _st.pack(">I", 0) + _st.pack(">B", 0) + _st.pack(">IIIIIII", 0, 0, 0, 0, 0, 0, 0)
+            items.append(("response-typed/type%d errstr=%r" % (t, es.decode()), rig.hdr(t, 0, len(rb_)) + rb_))
     bad = None
     n = 0
     for cls, raw in items:
@@ -1203,9 +1216,16 @@ def daemon_dispatch_phase(ctx):
         if c:
             bad = (items[-1][0], items[-1][1], "afterwards: " + c)
     alive = d.alive()
+    logtxt = d.log_text() if hasattr(d, "log_text") else ""
     rc, rep = d.stop()
     kinds, frames = hostile.summarize_report(rep)
     ctx.cov.setdefault("input_distribution", {})["daemon-dispatch"] = n
+    if not bad and alive and not kinds:
+        # what the daemon logged about those messages: the peer's string verbatim, or nothing — never an expansion of it
+        sus = [l for l in logtxt.splitlines() if re.search(r"\b[0-9a-f]{1,8}\.[0-9a-f]{1,8}\.[0-9a-f]{1,8}\.[0-9a-f]{1,8}\.", l)]
+        if sus:
+            bad = ("response-typed/errstr='%x.%x.%x.%x.%lx.%lx.%p'", [r for c_, r in items if "%x.%x" in c_][0],
+                   "the peer-chosen error string was used as a printf format: the log shows %r" % sus[0][-120:])
     if bad or kinds or not alive:
         cls, raw, why = bad if bad else (items[-1][0], items[-1][1], "sanitizer report")
         ctx.violation("munged, message class %s: %s%s" % (cls, why if alive else "munged died (exit %s)" % rc,
